@@ -44,7 +44,9 @@ class Gen(object):
             c = prim_class(t['p'])
             f = dict(t.get('facets') or {})
             for key in ('ge', 'gt', 'le', 'lt'):
-                if key in f and isinstance(f[key], dict):          # {'dt': [...]} instants
+                if key in f and isinstance(f[key], dict) and 'tm' in f[key]:       # {'tm': [h, m, s, us]} times of day
+                    f[key] = datetime.time(*f[key]['tm'])
+                elif key in f and isinstance(f[key], dict):          # {'dt': [...]} instants
                     f[key] = to_dt(f[key])
             par = f.pop('__parent__', None)
             if par:                                   # a customization of a customization whose parent has validated a value already
